@@ -185,7 +185,7 @@ def live_queries(side, ptr_types, pages, rng, n):
     out = []
     for _ in range(n):
         name = rng.choice(vs)
-        k = rng.randrange(16)
+        k = rng.choice([0, 1, 2, 3, 4, 5, 5, 5, 6, 7, 8, 9, 10, 11, 12, 13, 14, 15])
         big = rng.choice(['18446744073709551615', '9223372036854775807', '4294967296', '99999999999999999999', '-1', '0', '1000000'])
         if k == 0:
             q = f'{name}[{big}]'
@@ -198,7 +198,10 @@ def live_queries(side, ptr_types, pages, rng, n):
         elif k == 4:
             q = f'{name}.{rng.choice(["0", "1", "0.0.0", "next", "val", "a", "zz", "0.1.0"])}'
         elif k == 5:
-            q = f'{name}[{{{", ".join(rng.choice(["1", "2", "*", "4", "-1"]) for _ in range(rng.randint(0, 5)))}}}]'
+            # keys of the wrong arity / shape, aimed mostly at the maps and sets (tuple, struct and array keys)
+            if rng.random() < 0.85:
+                name = rng.choice(['pairs', 'pairs', 'ordered', 'ordered', 'keyed', 'arrkey', 'hm', 'hs', 'bm', 'bs'])
+            q = f'{name}[{{{", ".join(rng.choice(["1", "2", "*", "4", "3", "5"]) for _ in range(rng.randint(0, 5)))}}}]'
         elif k == 6:
             q = f'{name}[Key{{{rng.choice(["a: 1", "a: 1, b: 2", "b: *", "a: *, b: *, c: 3", ""])}}}]'
         elif k == 7:
